@@ -61,7 +61,20 @@ var setups = []string{"lib-lib", "peer-server", "peer-client"}
 var comps = []string{"none", "lz4", "snappy"}
 
 // scenarios per set-up. Legacy framing has no segmentation menu.
-func scenariosFor(setup string, v ref.Version, comp string) []string {
+func scenariosFor(setup string, v ref.Version, comp string, auth bool) []string {
+	out := baseScenarios(setup, v, comp)
+	// burst (burst.go): more than a handful of requests outstanding before the first Receive. v2 has only 127 stream ids.
+	if setup != "peer-server" && v != ref.V2 && comp != "snappy" && !auth {
+		out = append(out, "burst")
+	}
+	// late-write (burst.go): the peer's first v5 segment arrives while the server's Write of READY has not returned
+	if setup == "peer-client" && v.ModernFraming() && comp != "snappy" {
+		out = append(out, "late-write")
+	}
+	return out
+}
+
+func baseScenarios(setup string, v ref.Version, comp string) []string {
 	if v == ref.V5 && comp == "snappy" {
 		return []string{"refused"} // v5 §2.3.1: "Only LZ4 compression is currently supported for v5"
 	}
@@ -96,11 +109,11 @@ func buildCases(reps int) []caseSpec {
 			for _, v := range ref.Versions {
 				for _, cp := range comps {
 					for _, auth := range []bool{false, true} {
-						for _, sc := range scenariosFor(su, v, cp) {
+						for _, sc := range scenariosFor(su, v, cp, auth) {
 							if rep > 0 && (sc == "refused" || sc == "oversize-probe" || sc == "split-lt9" || sc == "startup-spec-names") {
 								continue // deterministic probes: once
 							}
-							if rep >= heavyReps && (sc == "big" || sc == "split-big") {
+							if rep >= heavyReps && (sc == "big" || sc == "split-big" || sc == "burst" || sc == "late-write") {
 								continue // the expensive scenarios: fewer repetitions
 							}
 							out = append(out, caseSpec{Index: len(out), Setup: su, Ver: v, Comp: cp, Auth: auth, Scenario: sc, Rep: rep})
@@ -123,6 +136,8 @@ func run(c *mon.Ctx) {
 	c.Assume("bridge.FromLib is the statement of what a library frame means (normal form N1-N9 of DESIGN.md M3); 'equal to what was sent' = equal abstract normal forms; the COMPRESSED header flag is a transport attribute and not part of it")
 	c.Assume("order argument for 'lost': each library connection has ONE sequential incoming loop, so a barrier frame delivered implies every frame written before it on that connection has been processed")
 	c.Assume("scenario startup-spec-names only: 'the response to STARTUP was never written' is taken from the library's own error log line (error writing ...), not from a clock")
+	c.Assume("scenario burst: 'every request of the burst has been through the server's incoming loop' is learned from the answer a RequestHandler gives to a marker request sent last (handlers are invoked by that sequential loop); Receive is called for the first time only then")
+	c.Assume("scenario late-write: the net.Conn handed to VerifNewServerConn delivers the bytes of a Write and returns 30 ms later (first writes only); the delay widens a window and is never part of a verdict")
 	c.Assume("a real v5 peer puts the whole 9-byte envelope header into the first part of a split envelope (Cassandra does); split points below 9 are run but only counted")
 	if c.Thorough() {
 		waitT = 40 * time.Second
